@@ -144,9 +144,10 @@ class CollectionField(FieldType):
         for field in self.data._fields.values():
             field.append_empty(num_obs, memo)
 
-    def fill_memo(self, memo):
-        for field_name, field in self.data._fields.items():
-            memo[id(field.data)] = f"{self.name}.{field_name}"
+    def fill_memo(self, memo, write_level=None, prefix=""):
+        for field in self.data._fields.values():
+            if write_level is None or field.write_level >= write_level:
+                field.fill_memo(memo, write_level, prefix=f"{prefix}{self.name}.")
 
     def write(self, h5_group, memo, write_level):
         """Write data to a HDF5 data source"""
